@@ -12,8 +12,10 @@ import (
 	"fmt"
 	"os"
 	"os/exec"
+	"io"
 	"path/filepath"
 	"strings"
+	"testing/iotest"
 
 	"sigs.k8s.io/yaml"
 
@@ -81,8 +83,44 @@ func verdict17(f func() error) int {
 }
 
 var epNames17 = []string{"ValidateData(JSON)", "ValidateData(YAML)", "ValidateFile(x.json)", "ValidateFile(x.yaml)",
-	"ValidateFile(x.txt holding JSON)", "ValidateReader(JSON)", "ReadAndValidate(JSON)", "ValidateType(decoded tree)",
-	"schema.Set + package-level ValidateData(JSON)", "Validate(spec)"}
+	"ValidateFile(a name not ending in .json, holding JSON)", "ValidateReader(JSON)", "ReadAndValidate(JSON)", "ValidateType(decoded tree)",
+	"schema.Set + package-level ValidateData(JSON) / ValidateFile(not .json)", "Validate(spec)",
+	"ValidateFile(.json under an unusual path)", "ValidateData(flow-style YAML)",
+	"schema.Set + package-level ValidateReader / ReadAndValidate / ValidateFile(x.json) / ValidateType"}
+
+// DEFECT-PENDING(json-path-url): ValidateFile hands "file://"+path to the schema library as a URL reference; a '#', '+' or %xx in
+// the path of a .json file makes it open another (or no) file.  notes/audit/DEFECT-C17-json-path-url.md.  Off: such paths are not generated.
+const defectPendingJSONPathURL = false
+
+// DEFECT-PENDING(flow-yaml): ValidateData takes every text starting with '{' for JSON; a YAML flow mapping is refused by every
+// real schema.  notes/audit/DEFECT-C17-flow-yaml.md.  Off: the flow-style route is not run.
+const defectPendingFlowYAML = false
+
+// names for the file that holds JSON under a name not ending in ".json" (the extension test is exact and case-sensitive)
+var otherNames17 = []string{"doc.txt", "DOC.JSON", "doc", "doc.yml", "doc.json.bak", "doc.Json", "doc.json ", ".json.d"}
+
+// unusual but legal paths of a .json file
+var oddJSONPaths17 = []string{"with blank/a b.json", "ünï/dôc.json", "q?x/doc?.json", "DOTDOT", "=&;/a=b&c;d.json", "REL"}
+var oddJSONPathsPending17 = []string{"c++/doc.json", "hash#1/doc.json", "pct%41/doc.json", "doc#frag.json", "100%25.json", "a+b.json"}
+
+// flowYAML17 renders an object document as a YAML flow mapping which is not JSON.
+func flowYAML17(d *Doc, style int) []byte {
+	jb := d.JSON(false)
+	if d.K != sdObj || len(d.O) == 0 || len(jb) < 2 || jb[0] != '{' {
+		return nil
+	}
+	k := d.O[0].K
+	if style%2 == 0 && !strings.ContainsAny(k, "'\\\"\n") && k != "" && strings.HasPrefix(string(jb), "{"+jsonQuote17(k)+":") {
+		return append([]byte("{'"+k+"': "), jb[len("{"+jsonQuote17(k)+":"):]...)
+	}
+	return append(append([]byte{}, jb[:len(jb)-1]...), []byte(",}")...)
+}
+
+func jsonQuote17(s string) string {
+	b, _ := json.Marshal(s)
+	return string(b)
+}
+
 var verdictNames17 = []string{"accept", "reject", "PANIC", "not run", "returned bytes differ from input"}
 
 type run17 struct {
@@ -120,11 +158,31 @@ func (x *run17) observe(c *cfg17, d *Doc, spec *specs.Spec) ([]int, map[string]i
 	}
 	dir := filepath.Join(x.scratch, fmt.Sprintf("c17-%d", x.n%8))
 	_ = os.MkdirAll(dir, 0o755)
-	pj, py, pt := filepath.Join(dir, "doc.json"), filepath.Join(dir, "doc.yaml"), filepath.Join(dir, "doc.txt")
+	pj, py, pt := filepath.Join(dir, "doc.json"), filepath.Join(dir, "doc.yaml"), filepath.Join(dir, otherNames17[x.n%len(otherNames17)])
 	_ = os.WriteFile(pj, jb, 0o644)
 	_ = os.WriteFile(py, yb, 0o644)
 	_ = os.WriteFile(pt, jb, 0o644)
-	obs := make([]int, 10)
+	// the .json file again under an unusual path
+	odd := oddJSONPaths17
+	if defectPendingJSONPathURL {
+		odd = append(append([]string{}, odd...), oddJSONPathsPending17...)
+	}
+	po := filepath.Join(dir, odd[x.n%len(odd)])
+	if strings.HasSuffix(po, "REL") { // a relative path to the plain file
+		po = pj
+		if wd, err := os.Getwd(); err == nil {
+			if rel, err := filepath.Rel(wd, pj); err == nil {
+				po = rel
+			}
+		}
+	} else if strings.HasSuffix(po, "DOTDOT") { // a path that is not clean
+		_ = os.MkdirAll(filepath.Join(dir, "sub"), 0o755)
+		po = dir + "/sub/..//./doc.json"
+	} else {
+		_ = os.MkdirAll(filepath.Dir(po), 0o755)
+		_ = os.WriteFile(po, jb, 0o644)
+	}
+	obs := make([]int, 13)
 	obs[0] = verdict17(func() error { return s.ValidateData(jb) })
 	obs[1], obs[3] = 3, 3
 	if yamlOK {
@@ -133,11 +191,24 @@ func (x *run17) observe(c *cfg17, d *Doc, spec *specs.Spec) ([]int, map[string]i
 	}
 	obs[2] = verdict17(func() error { return s.ValidateFile(pj) })
 	obs[4] = verdict17(func() error { return s.ValidateFile(pt) })
-	obs[5] = verdict17(func() error { return s.ValidateReader(bytes.NewReader(jb)) })
+	// the stream entry points get their data in one piece, byte by byte, in halves, or with the error arriving together with the last piece
+	reader := func(k int) io.Reader {
+		var rd io.Reader = bytes.NewReader(jb)
+		switch k % 4 {
+		case 1:
+			rd = iotest.OneByteReader(rd)
+		case 2:
+			rd = iotest.DataErrReader(rd)
+		case 3:
+			rd = iotest.HalfReader(rd)
+		}
+		return rd
+	}
+	obs[5] = verdict17(func() error { return s.ValidateReader(reader(x.n)) })
 	var back []byte
 	obs[6] = verdict17(func() error {
 		var err error
-		back, err = s.ReadAndValidate(bytes.NewReader(jb))
+		back, err = s.ReadAndValidate(reader(x.n + 1))
 		return err
 	})
 	if obs[6] != 2 && !bytes.Equal(back, jb) {
@@ -146,8 +217,30 @@ func (x *run17) observe(c *cfg17, d *Doc, spec *specs.Spec) ([]int, map[string]i
 	obs[7] = verdict17(func() error { return s.ValidateType(d.generic()) })
 	prev := schema.Get()
 	schema.Set(s)
-	obs[8] = verdict17(func() error { return schema.ValidateData(jb) })
+	if x.n%2 == 0 {
+		obs[8] = verdict17(func() error { return schema.ValidateData(jb) })
+	} else {
+		obs[8] = verdict17(func() error { return schema.ValidateFile(pt) })
+	}
+	switch x.n % 4 {
+	case 0:
+		obs[12] = verdict17(func() error { return schema.ValidateReader(reader(x.n + 2)) })
+	case 1:
+		obs[12] = verdict17(func() error { _, err := schema.ReadAndValidate(reader(x.n + 2)); return err })
+	case 2:
+		obs[12] = verdict17(func() error { return schema.ValidateFile(pj) })
+	default:
+		obs[12] = verdict17(func() error { return schema.ValidateType(d.generic()) })
+	}
+	if schema.Get() != s {
+		obs[12] = 4 // Get does not return what Set was given
+	}
 	schema.Set(prev)
+	obs[10] = verdict17(func() error { return s.ValidateFile(po) })
+	obs[11] = 3
+	if fy := flowYAML17(d, x.n); defectPendingFlowYAML && fy != nil && yamlDenotes(fy, d) {
+		obs[11] = verdict17(func() error { return s.ValidateData(fy) })
+	}
 	obs[9] = 3
 	if spec != nil {
 		obs[9] = verdict17(func() error { return s.Validate(spec) })
@@ -572,13 +665,21 @@ func buildVariants(scratch string) (cfgs []*cfg17, preamble string, notes []stri
 		ident := fmt.Sprintf("variant_%d", i)
 		fmt.Fprintf(&pre, "(* variant %s: %s *)\nDefinition %s : schema := %s.\n", v.name, v.what, ident, term)
 		path := rootPath
-		useURL := i%2 == 1
+		useURL := i%3 == 1
+		useRel := i%3 == 2
 		cfgs = append(cfgs, &cfg17{
 			name: "variant " + v.name + " (" + v.what + "), loaded with schema.Load(path)",
 			term: hx.C("KVariant", ident), kind: "variant:" + v.name,
 			load: func() (*schema.Schema, error) {
 				if useURL {
 					return schema.Load("file://" + path)
+				}
+				if useRel {
+					if wd, err := os.Getwd(); err == nil {
+						if rel, err := filepath.Rel(wd, path); err == nil {
+							return schema.Load(rel)
+						}
+					}
 				}
 				return schema.Load(" " + path + " ")
 			},
@@ -651,6 +752,38 @@ func genC17(r *hx.R, tier string, scratch string) (*hx.Suite, error) {
 	for i := 0; i < nq; i++ {
 		sp := randLibValidSpec(r, r.Chance(0.5))
 		add(specDoc(sp), sp, "valid-spec", true)
+	}
+	// typed Spec values which are NOT valid: the in-memory route must say what the other routes say about the image
+	for _, f := range []func(sp *specs.Spec){
+		func(sp *specs.Spec) { sp.Kind = "" },
+		func(sp *specs.Spec) { sp.Version = "" },
+		func(sp *specs.Spec) { sp.Devices = nil },
+		func(sp *specs.Spec) { sp.Devices = []specs.Device{} },
+		func(sp *specs.Spec) { sp.Devices[0].Name = "" },
+		func(sp *specs.Spec) { sp.Devices[0].ContainerEdits = specs.ContainerEdits{} },
+		func(sp *specs.Spec) { sp.Devices[0].ContainerEdits.DeviceNodes = []*specs.DeviceNode{nil} },
+		func(sp *specs.Spec) { sp.Devices[0].ContainerEdits.Hooks = append(sp.Devices[0].ContainerEdits.Hooks, nil) },
+		func(sp *specs.Spec) { sp.Devices[0].ContainerEdits.Mounts = []*specs.Mount{nil, {HostPath: "/h", ContainerPath: "/c"}} },
+		func(sp *specs.Spec) { sp.Devices[0].ContainerEdits.DeviceNodes[0].Path = "" },
+		func(sp *specs.Spec) { sp.Devices[0].ContainerEdits.Hooks[0].Timeout = intp(-1) },
+		func(sp *specs.Spec) { sp.Devices[0].ContainerEdits.Hooks[0].Timeout = intp(1 << 32) },
+		func(sp *specs.Spec) { sp.Devices[0].ContainerEdits.Hooks[0].Timeout = intp(1<<32 - 1) },
+		func(sp *specs.Spec) { sp.Devices[0].ContainerEdits.Hooks[0].HookName = "" },
+		func(sp *specs.Spec) { sp.Devices[0].ContainerEdits.Mounts[0].HostPath = "" },
+		func(sp *specs.Spec) {
+			sp.Devices[0].ContainerEdits.DeviceNodes[0].Major = -1 << 63
+			sp.Devices[0].ContainerEdits.DeviceNodes[0].Minor = 1<<63 - 1
+		},
+		func(sp *specs.Spec) { sp.Devices[0].ContainerEdits.DeviceNodes[0].FileMode = fmp(os.ModeDir | 0o777) },
+		func(sp *specs.Spec) { sp.Devices[0].ContainerEdits.DeviceNodes[0].Type = "x" },
+		func(sp *specs.Spec) { sp.Devices[0].Annotations = map[string]string{"bad key!": "v"} },
+		func(sp *specs.Spec) { sp.Annotations = map[string]string{} },
+		func(sp *specs.Spec) { sp.Devices = append(sp.Devices, specs.Device{}) },
+	} {
+		sp := fullSpec17()
+		sp.ContainerEdits = specs.ContainerEdits{Env: []string{"A=b"}, AdditionalGIDs: []uint32{5}}
+		f(sp)
+		add(specDoc(sp), sp, "typed-value", false)
 	}
 	// every member / element removed in turn
 	for k := range nodes17(fullDoc) {
